@@ -7,18 +7,18 @@ import FluentProofs.SerializerFinal
 import FluentProofs.SerializerOutValid
 import FluentProofs.SerializerOutShape5
 import FluentProofs.SerializerOutCrValid
+import FluentProofs.SerializerJunkTransfer
 /-!
 # C04 — serializer round trip
 
 Model: `FluentModel/Serializer.lean` (`Serializer` + `TextWriter`, function for function) and
 `FluentModel/Parser.lean`.  The two full statements are the `def`s `C04_roundtrip_statement` and
 `C04_fixpoint_statement` below.  **Proved: both statements for EVERY `String` in which each `\r` is followed by
-`\n` (LF and CRLF sources), for `with_junk = false` without any further hypothesis and for `with_junk = true`
-when the parse tree has no Junk** (`C04_roundtrip_noLoneCR`; `C04_roundtrip_crfree_nojunk`,
-`C04_roundtrip_crfree_junkfree` for `\r`-free sources, where the tree itself — not only its `normSafe` form —
-is in the class).  Open, kept visible as `def`s: `C04_roundtrip_cr_open` (sources with a lone `\r`) and
-`C04_roundtrip_junk_open` (Junk re-emitted verbatim with `with_junk = true`); `C04_roundtrip_of_open` /
-`C04_fixpoint_of_open` show that these two are all that is left.  In detail, for all trees / all inputs
+`\n` (LF and CRLF sources), for both values of `with_junk`, without any hypothesis on the tree**
+(`C04_roundtrip_noLoneCR`; `C04_roundtrip_junk` is the case `with_junk = true` with Junk in the tree;
+`C04_roundtrip_crfree_nojunk`, `C04_roundtrip_crfree_junkfree` for `\r`-free sources, where the tree itself — not only
+its `normSafe` form — is in the class).  Open, kept visible as a `def`: `C04_roundtrip_cr_open` (sources with a lone
+`\r`); `C04_roundtrip_of_open` / `C04_fixpoint_of_open` show that this is all that is left.  In detail, for all trees / all inputs
 (structural induction over the mutual AST types, partial-correctness induction along the parser functions):
 
 * T1a `serialize_total` — the serializer never panics (`dedent` never underflows), any tree shape;
@@ -54,27 +54,34 @@ is in the class).  Open, kept visible as `def`s: `C04_roundtrip_cr_open` (source
   line takes part in the common indent (`b=.{$x ->…}z`), named-argument values that are message references or
   calls (`F(x: foo)`, the parser's `only_literal` leniency), select expressions at every inline position.
 
-Still open (`C04_roundtrip_cr_open`, `C04_roundtrip_junk_open`): a lone `\r` (it stays inside text / comment
-lines, which the class excludes, and is doubled by the `TextWriter`), and Junk with `with_junk = true` (needs
-that a broken entry is broken in the same way in front of the *re-serialised* next entry: a context-independence
-theorem for failing `get_entry` runs, stronger than the C03 containment theorems).  No source is known on which
-the model violates either statement (exhaustive enumeration of short sources over small alphabets and ~100 000
-random structured sources, both options, with and without `\r`).  `C04_fixpoint_statement` needs nothing else
-than `C04_roundtrip_statement` (`fixpoint_of_roundtrip`).
+* **Junk kept by the serializer (`with_junk = true`)**: `C04_roundtrip_junk`.  The serializer re-emits a Junk's bytes
+  verbatim; the bytes of a Junk run from a line start to the next entry start / the end of input, and the failing run
+  of `get_entry` that produced it may have looked into the first line of the following entry (up to its `=`), whose
+  blanks the serializer normalises.  Proof: a two-source simulation of the parser (`FluentProofs/ParserLocalSim*.lean`:
+  two sources that agree up to a line start `N` holding, in both, a `#` or an entry head: every parser function
+  started at or before `N` returns the same outcome in both, or ends behind `N` inside the entry head in both —
+  `junk_transfer`, `attr_transfer`), the facts about the Junk spans of a parse tree (`SerializerJunkSrc*.lean`:
+  `parse_srcGood`), their transfer to every text that holds the same Junk bytes followed by the serialised following
+  entries (`SerializerJunkTransfer.lean`: `jgood_of_srcGood`), and the entry loop on such a text
+  (`SerializerJunkText.lean`: `parseLoop_textJ`, `roundtrip_junk_tree`).
+
+Still open (`C04_roundtrip_cr_open`): a lone `\r` (it stays inside text / comment lines, which the class excludes, and
+is doubled by the `TextWriter`).  No source is known on which the model violates the statement (exhaustive
+enumeration of short sources over small alphabets and ~100 000 random structured sources, both options, with and
+without `\r`).  `C04_fixpoint_statement` needs nothing else than `C04_roundtrip_statement` (`fixpoint_of_roundtrip`).
 -/
 namespace FluentProofs.C04
 open FluentModel FluentModel.Syntax FluentModel.Syntax.Ser FluentProofs.Parser FluentProofs.Ser
 
-/-! ## the full statements (kept visible; proved except for two corner classes, see the end of the file) -/
+/-! ## the full statements (kept visible; proved except for sources with a lone `\r`, see the end of the file) -/
 
-/-- **C04 round trip (full statement; open only for lone `\r` and for Junk with `with_junk = true`).**
+/-- **C04 round trip (full statement; open only for sources with a lone `\r`).**
 For every source string and both options: if the parser gives the tree `t`, then serialising `t` succeeds with some text `out`, parsing `out`
 succeeds with a tree `t'`, and `t'` equals `t` under `norm` (adjacent text elements joined
 recursively, whitespace-only comment lines equal to empty ones, Junk dropped when `¬withJunk`).
 
-Proved for every string without a lone `\r` — `with_junk = false`: always; `with_junk = true`: when the tree
-has no Junk — `C04_roundtrip_noLoneCR`.  The rest is `C04_roundtrip_cr_open` ∧ `C04_roundtrip_junk_open`
-(`C04_roundtrip_of_open`). -/
+Proved for every string without a lone `\r`, both options, no hypothesis on the tree — `C04_roundtrip_noLoneCR`
+(Junk kept by the serializer: `C04_roundtrip_junk`).  The rest is `C04_roundtrip_cr_open` (`C04_roundtrip_of_open`). -/
 def C04_roundtrip_statement : Prop :=
   ∀ (str : String) (withJunk : Bool) (t : Resource Span) (errs : List PErr),
     parse str.toUTF8.data = .done (t, errs) →
@@ -1435,10 +1442,10 @@ output: for EVERY `String` without the byte 13 (`CRFree`) the parse tree is in t
 Junk entries — and for every `String` without a lone `\r` (`NoLoneCRStr`) the `normSafe` form of the tree is.
 Hence both full statements hold for all such sources when serialising without Junk, and with
 `with_junk = true` when the tree contains no Junk (`C04_roundtrip_crfree_nojunk`,
-`C04_roundtrip_crfree_junkfree`, `C04_roundtrip_noLoneCR`).  What is left of the full statement is kept
-visible as the two `def`s `C04_roundtrip_cr_open` (sources with a lone `\r`) and `C04_roundtrip_junk_open`
-(Junk re-emitted verbatim with `with_junk = true`); `C04_roundtrip_of_open` shows that they are all that is
-left. -/
+`C04_roundtrip_crfree_junkfree`, `C04_roundtrip_noLoneCR_nojunk`).  Junk re-emitted verbatim with `with_junk = true`
+is the theorem `C04_roundtrip_junk` (two-source simulation of the parser); with it `C04_roundtrip_noLoneCR` has no
+hypothesis on the tree.  What is left of the full statement is kept visible as the `def` `C04_roundtrip_cr_open`
+(sources with a lone `\r`); `C04_roundtrip_of_open` shows that it is all that is left. -/
 
 /-- the string contains no carriage return (byte 13) -/
 def CRFree (str : String) : Prop := ∀ j : Nat, str.toUTF8.data[j]? ≠ some (13 : UInt8)
@@ -1523,12 +1530,12 @@ theorem parse_output_normSafe_roundTrippable (s : Src) (hcr : Ser.NoLoneCR s)
     RoundTrippable withJunk (normSafe withJunk (resolve s t)) = true :=
   Ser.roundTrippable_normSafe_of_parse' s hcr t errs h withJunk hj
 
-/-- **(d) both full statements for EVERY string without a lone `\r`** (LF and CRLF sources alike): for
-`with_junk = false` without any further hypothesis, for `with_junk = true` when the tree has no Junk.
-Proof: the tree `r` and `normSafe r` serialise to the same bytes (`serialize_congr`), `normSafe r` is
-`RoundTrippable` (`parse_output_normSafe_roundTrippable`), and `norm (normSafe r) = norm r`
-(`Ser.norm_normSafe`). -/
-theorem C04_roundtrip_noLoneCR (str : String) (hcr : NoLoneCRStr str) (withJunk : Bool) (t : Resource Span)
+/-- **(d) both full statements for every string without a lone `\r`, when no Junk has to be written** (LF and CRLF
+sources alike): for `with_junk = false` without any further hypothesis, for `with_junk = true` when the tree has no
+Junk.  Proof: the tree `r` and `normSafe r` serialise to the same bytes (`serialize_congr`), `normSafe r` is
+`RoundTrippable` (`parse_output_normSafe_roundTrippable`), and `norm (normSafe r) = norm r` (`Ser.norm_normSafe`).
+(`C04_roundtrip_noLoneCR` below removes the hypothesis on Junk.) -/
+theorem C04_roundtrip_noLoneCR_nojunk (str : String) (hcr : NoLoneCRStr str) (withJunk : Bool) (t : Resource Span)
     (errs : List PErr) (hp : parse str.toUTF8.data = .done (t, errs))
     (hj : withJunk = true → ∀ e ∈ t, ∀ c, e ≠ .junk c) :
     ∃ out, Ser.serialize withJunk (resolve str.toUTF8.data t) = some out ∧
@@ -1541,7 +1548,7 @@ theorem C04_roundtrip_noLoneCR (str : String) (hcr : NoLoneCRStr str) (withJunk 
   obtain ⟨t', h3, h4, h5⟩ := h2 (serialize_atb_of_parse str t errs hp withJunk out h1)
   exact ⟨out, h1, t', [], h3, by rw [h4, Ser.norm_normSafe], h5⟩
 
-/-- **open part 1 of `C04_roundtrip_statement`: sources that contain a lone `\r`** (a `\r` not followed by
+/-- **open part of `C04_roundtrip_statement`: sources that contain a lone `\r`** (a `\r` not followed by
 `\n`).  It stays inside text and comment lines (the class excludes the byte 13 there) and is doubled by the
 `TextWriter` in front of `\n`.  On every tested source the model satisfies the statement; it is not proved. -/
 def C04_roundtrip_cr_open : Prop :=
@@ -1551,12 +1558,11 @@ def C04_roundtrip_cr_open : Prop :=
       ∃ t' errs', parse out.toArray = .done (t', errs') ∧
         norm withJunk (resolve out.toArray t') = norm withJunk (resolve str.toUTF8.data t)
 
-/-- **open part 2 of `C04_roundtrip_statement`: Junk re-emitted verbatim (`with_junk = true`)**, source
-without lone `\r`.  It needs that the bytes of a broken entry, put in front of the *re-serialised* following
-entry, are broken in the same way (the failing run of `get_entry` may have looked into the first line of the
-next entry, up to its `=`; the serializer normalises the blanks there).  The C03 containment theorems
-(`Parser.parse_containment`) bound where the Junk ends, not what is produced before that point.  On every
-tested source the model satisfies the statement; it is not proved. -/
+/-- **Junk re-emitted verbatim (`with_junk = true`)**, source without lone `\r`: the round-trip sentence for trees that
+contain Junk.  (Formerly the second open part of the statement; now `C04_roundtrip_junk`.)  The difficulty: the bytes
+of a broken entry, put in front of the *re-serialised* following entry, must be broken in the same way, although the
+failing run of `get_entry` may have looked into the first line of the next entry (up to its `=`), whose blanks the
+serializer normalises. -/
 def C04_roundtrip_junk_open : Prop :=
   ∀ (str : String) (t : Resource Span) (errs : List PErr), NoLoneCRStr str → (∃ e ∈ t, ∃ c, e = .junk c) →
     parse str.toUTF8.data = .done (t, errs) →
@@ -1564,25 +1570,62 @@ def C04_roundtrip_junk_open : Prop :=
       ∃ t' errs', parse out.toArray = .done (t', errs') ∧
         norm true (resolve out.toArray t') = norm true (resolve str.toUTF8.data t)
 
-/-- **the two open parts are all that is left**: `C04_roundtrip_statement` (hence, by
-`fixpoint_of_roundtrip`, `C04_fixpoint_statement`) follows from them. -/
-theorem C04_roundtrip_of_open (hcr : C04_roundtrip_cr_open) (hjunk : C04_roundtrip_junk_open) :
-    C04_roundtrip_statement := by
+/-- **both full statements for `with_junk = true`, for EVERY string without a lone `\r`** — whatever Junk the tree
+contains: serialising the parse tree with the Junk kept succeeds, the output parses, the re-parsed tree equals the
+original one under `norm true` (same entries, the Junk entries with the same content, in the same order), and
+serialising it again reproduces the output byte for byte.  Proof: `Ser.roundtrip_junk_source` — the Junk spans of the
+tree fail and recover in the source as recorded (`Ser.parse_srcGood`); by the two-source simulation of the parser
+(`Parser.junk_transfer`, `Parser.attr_transfer`) the same bytes fail and recover in the same way in front of the
+re-serialised following entries (`Ser.jgood_of_srcGood`); the entry loop on the serialised text returns the entries
+again (`Ser.parseLoop_textJ`). -/
+theorem C04_roundtrip_withJunk (str : String) (hcr : NoLoneCRStr str) (t : Resource Span) (errs : List PErr)
+    (hp : parse str.toUTF8.data = .done (t, errs)) :
+    ∃ out, Ser.serialize true (resolve str.toUTF8.data t) = some out ∧
+      ∃ t' errs', parse out.toArray = .done (t', errs') ∧
+        norm true (resolve out.toArray t') = norm true (resolve str.toUTF8.data t) ∧
+        Ser.serialize true (resolve out.toArray t') = some out :=
+  Ser.roundtrip_junk_source str hcr t errs hp
+
+/-- **`C04_roundtrip_junk_open` is a theorem**: the round-trip sentence for Junk kept by the serializer. -/
+theorem C04_roundtrip_junk : C04_roundtrip_junk_open := by
+  intro str t errs hcr _ hp
+  obtain ⟨out, h1, t', errs', h2, h3, _⟩ := C04_roundtrip_withJunk str hcr t errs hp
+  exact ⟨out, h1, t', errs', h2, h3⟩
+
+/-- **(d) both full statements for EVERY string without a lone `\r`** (LF and CRLF sources alike), both values of
+`with_junk`, no hypothesis on the tree: serialising the parse tree succeeds, the output parses, the re-parsed tree
+equals the original one under `norm`, and serialising it again reproduces the output byte for byte. -/
+theorem C04_roundtrip_noLoneCR (str : String) (hcr : NoLoneCRStr str) (withJunk : Bool) (t : Resource Span)
+    (errs : List PErr) (hp : parse str.toUTF8.data = .done (t, errs)) :
+    ∃ out, Ser.serialize withJunk (resolve str.toUTF8.data t) = some out ∧
+      ∃ t' errs', parse out.toArray = .done (t', errs') ∧
+        norm withJunk (resolve out.toArray t') = norm withJunk (resolve str.toUTF8.data t) ∧
+        Ser.serialize withJunk (resolve out.toArray t') = some out := by
+  cases withJunk with
+  | true => exact C04_roundtrip_withJunk str hcr t errs hp
+  | false => exact C04_roundtrip_noLoneCR_nojunk str hcr false t errs hp (fun h => by cases h)
+
+/-- **the open part is all that is left**: `C04_roundtrip_statement` (hence, by `fixpoint_of_roundtrip`,
+`C04_fixpoint_statement`) follows from `C04_roundtrip_cr_open`. -/
+theorem C04_roundtrip_of_open (hcr : C04_roundtrip_cr_open) : C04_roundtrip_statement := by
   intro str withJunk t errs hp
   by_cases hc : NoLoneCRStr str
-  · by_cases hj : withJunk = true ∧ ∃ e ∈ t, ∃ c, e = .junk c
-    · obtain ⟨rfl, hj⟩ := hj
-      exact hjunk str t errs hc hj hp
-    · have hj' : withJunk = true → ∀ e ∈ t, ∀ c, e ≠ .junk c :=
-        fun hw e he c hec => hj ⟨hw, e, he, c, hec⟩
-      obtain ⟨out, h1, t', errs', h2, h3, _⟩ := C04_roundtrip_noLoneCR str hc withJunk t errs hp hj'
-      exact ⟨out, h1, t', errs', h2, h3⟩
+  · obtain ⟨out, h1, t', errs', h2, h3, _⟩ := C04_roundtrip_noLoneCR str hc withJunk t errs hp
+    exact ⟨out, h1, t', errs', h2, h3⟩
   · exact hcr str withJunk t errs hc hp
 
 /-- the same for the fixed point -/
-theorem C04_fixpoint_of_open (hcr : C04_roundtrip_cr_open) (hjunk : C04_roundtrip_junk_open) :
-    C04_fixpoint_statement :=
-  fixpoint_of_roundtrip (C04_roundtrip_of_open hcr hjunk)
+theorem C04_fixpoint_of_open (hcr : C04_roundtrip_cr_open) : C04_fixpoint_statement :=
+  fixpoint_of_roundtrip (C04_roundtrip_of_open hcr)
+
+/-- test: Junk kept by the serializer, the broken entry looks into the head of the next one whose blanks are
+normalised (`"a = {\nb   =  x\n"`), Junk followed by a comment, by Junk, at the end of input without line end, behind a
+message (starting with blanks and a `.`), CRLF -/
+example : (roundtripHolds "a = {\nb   =  x\n".toUTF8.data true &&
+    roundtripHolds "a = {\n# c\n\n\nm = x\n".toUTF8.data true &&
+    roundtripHolds "a = {\nb = {\nc = {".toUTF8.data true &&
+    roundtripHolds "a = x\n  .attr = {\n-b   =  y\n".toUTF8.data true &&
+    roundtripHolds "a = {\r\nb = c\r\n".toUTF8.data true) = true := by decide +kernel
 
 /-- test: `CRFree` and the hypotheses of `C04_roundtrip_crfree_nojunk` are satisfiable, and the theorem's
 conclusion agrees with evaluation: `"a =\n    x\n     { $n ->\n   *[o] y\n    }\nerr {\n"` -/
